@@ -102,7 +102,13 @@ def standin(rep: Report):
                                               # characters str.splitlines() treats as line ends but the tokenizer does not, next to multi-line strings / comments
                                               *EXOTIC, "x = {1: 2, 3}\n", "a if b\n", "x = f'{a b}'\n", "match x:\n  case 1 | y: pass\n case: pass\n"]
     cases = list(progs)
-    n = 1500 if rep.tier == "quick" else 15000
+    # errors raised by the tokenizer itself: dedents that match no enclosing level, with spaces, tabs and form feeds in the indentation
+    for unit in ("  ", "\t", "\t\t", " \t", "    "):
+        for depth in (1, 2, 3):
+            head = "".join(f"{unit * d}if a{d}:\n" for d in range(depth))
+            for bad_indent in (" ", unit * (depth - 1) + " ", unit * depth + "\x0c ", "\t" if unit != "\t" else "   ", unit * (depth - 1) + "\t "):
+                cases.append(f"{head}{unit * depth}x = 1\n{bad_indent}y = 2\n")
+    n = (1500 if rep.tier == "quick" else 15000) + len(cases)
     toks = ["(", ")", "[", "]", ":", ",", "=", "x", "1", "def", "if", "\n", " ", "'", "$", "!", "{", "}", ".", "lambda", "*", "@", "\n  "]
     while len(cases) < n:
         p = rnd.choice(progs)
